@@ -755,6 +755,44 @@ var Scenarios = []Scenario{
 		}
 		return out
 	}},
+	{Name: "S1-reset-with-a-full-resource-registry", Props: []string{"C16", "C18"}, Run: func() []string {
+		// every resource slot in use (256, or 64 in the tiny build): Reset removes all of them
+		var out []string
+		w := ecs.NewWorld(4)
+		var ids []ecs.ResID
+		for k := 0; k < 300; k++ {
+			var id ecs.ResID
+			if try(func() { id = ecs.ResourceTypeID(w, u.Filler(k)) }) != nil {
+				break
+			}
+			ids = append(ids, id)
+		}
+		if len(ids) != 256 && len(ids) != 64 {
+			return []string{fmt.Sprintf("%d resource types could be registered, want 256 (64 in the tiny build)", len(ids))}
+		}
+		res := w.Resources()
+		for i, id := range ids {
+			if i%5 != 3 {
+				v := int64(i)
+				res.Add(id, &v)
+			}
+		}
+		w.Reset()
+		left := 0
+		for _, id := range ids {
+			if res.Has(id) {
+				left++
+			}
+		}
+		if left != 0 {
+			out = append(out, fmt.Sprintf("%d resources are still present after Reset (all %d resource types registered)", left, len(ids)))
+		}
+		v := int64(7)
+		if p := try(func() { res.Add(ids[0], &v) }); p != nil {
+			out = append(out, fmt.Sprintf("adding a resource again after Reset panics: %v", p))
+		}
+		return out
+	}},
 	{Name: "K1-loaded-world-reports-pre-reset-handles-alive", Props: []string{"C17"}, Run: func() []string {
 		// KNOWN FINDING (not repaired, see DESIGN section 5): World.Alive reads the pool through a raw pointer without
 		// bounds check; LoadEntities installs a pool of exactly the dump's length, so for handles the source world issued
